@@ -1213,3 +1213,188 @@ func ruleDatagramBuffer(c *Ctx, rule string) {
 		c.check(good, rule, "(*ByteArrayPool).Alloc/size", w.pos(f.Pos()), "a new buffer has the pool's configured size", "Alloc does not make buffers of the pool's configured size")
 	}
 }
+
+// ---------- round-4 rules (second half) ----------
+
+// ruleBlockingHandOff: every decoded message reaches the message loop: HandleRawMessage sends on the loop's channel
+// with a plain (blocking) send on every path - no select with a default that drops the message when the loop lags.
+// The blocking send is the back-pressure that makes "the same bytes, however they arrive, give the same messages".
+func ruleBlockingHandOff(c *Ctx, rule string) {
+	w := c.w
+	f := c.fn(rule, "(*Proxy).HandleRawMessage")
+	if f == nil {
+		return
+	}
+	var sends []ssa.Instruction
+	selects := 0
+	eachInstr(f, func(in ssa.Instruction) {
+		switch x := in.(type) {
+		case *ssa.Send:
+			if ref, _ := loadedField(x.Chan); ref == "Proxy.msgChannel" && isParam(f, x.X, 1) {
+				sends = append(sends, in)
+			}
+		case *ssa.Select:
+			selects++
+		}
+	})
+	good := len(sends) == 1 && selects == 0
+	if good {
+		isRet := func(in ssa.Instruction) bool { _, ok := in.(*ssa.Return); return ok }
+		good = !canReach(entryPt(f), nil, isRet, isInstr(sends[0]))
+	}
+	c.check(good, rule, "HandleRawMessage/blocking-hand-off", w.pos(f.Pos()), "every message is sent to the loop with a blocking send", fmt.Sprintf("HandleRawMessage does not hand every message to the message loop with one plain blocking send on p.msgChannel (%d sends, %d select statements): when the loop lags, decoded messages are dropped, so which messages are processed depends on how fast the bytes arrive", len(sends), selects))
+}
+
+// ruleNoReadDeadline: nothing in the package sets a read deadline (SetDeadline / SetReadDeadline) on a connection: the
+// connections written to are the ones a receive loop is reading, and an expired read deadline ends that loop - which
+// messages are framed would then depend on the timing of the segments.
+func ruleNoReadDeadline(c *Ctx, rule string) {
+	w := c.w
+	n := 0
+	for _, fn := range w.All {
+		for _, cs := range w.callsIn(fn) {
+			if strings.HasSuffix(cs.Name, ".SetDeadline") || strings.HasSuffix(cs.Name, ".SetReadDeadline") {
+				if strings.Contains(cs.Name, "net.") {
+					n++
+					c.Fns[w.fname(fn)] = true
+					c.bad(rule, fmt.Sprintf("%s/read-deadline#%d", w.fname(fn), n), w.ipos(cs.In), w.fname(fn)+" calls "+cs.Name+": the deadline also applies to the receive loop reading the same connection, whose read then fails after that time although the peer is only slow - the connection is closed and the rest of the stream is lost (SetWriteDeadline bounds a write alone)")
+				}
+			}
+		}
+	}
+	if n == 0 {
+		c.ok(rule, "package/no-read-deadline", "-", "no SetDeadline/SetReadDeadline call on a network connection in the package")
+	}
+}
+
+// ruleTokenSplitting: the decoders of blank-separated start lines and header values (request line, status line, CSeq,
+// the sent-protocol/sent-by pair of a Via entry) cut their input with strings.Fields, which tolerates runs of blanks,
+// tabs and blanks at the edges (an entry that follows ", " in a comma-separated list starts with one); a Split/Cut
+// at a single space makes the result depend on the layout.
+func ruleTokenSplitting(c *Ctx, rule string, fns ...string) {
+	w := c.w
+	for _, name := range fns {
+		f := c.fn(rule, name)
+		if f == nil {
+			continue
+		}
+		hasFields := false
+		bad := ""
+		for _, cs := range w.callsIn(f) {
+			switch cs.Name {
+			case "strings.Fields":
+				hasFields = true
+			case "strings.Split", "strings.SplitN", "strings.Cut", "strings.Index", "strings.IndexByte":
+				if b, ok := constByte(cs.In.Common().Args[1]); ok && (b == ' ' || b == '\t') {
+					bad = cs.Name + " at " + w.ipos(cs.In)
+				}
+			}
+		}
+		c.check(hasFields && bad == "", rule, name+"/blank-separated-tokens", w.pos(f.Pos()), "blank-separated tokens are cut with strings.Fields", name+" does not cut its blank-separated tokens with strings.Fields ("+bad+"): a second blank, a tab or a blank after the comma of a list makes the entry undecodable or leaves the blank inside a token, so the same header in another layout is treated differently")
+	}
+}
+
+// ruleSplitRemainder: a decoder that takes fixed parts out of strings.Split(s, sep) - parts[0], parts[1] - instead of
+// ranging over them loses whatever follows a further separator (a tag or a base64 value containing '='), unless the
+// number of parts is tested or the split is limited (SplitN). Every such Split in a decoder is guarded by a length test
+// on its result.
+func ruleSplitRemainder(c *Ctx, rule string) {
+	w := c.w
+	n := 0
+	for fn := range decoderSet(w) {
+		per := 0
+		for _, cs := range w.callsIn(fn, "strings.Split") {
+			call, ok := cs.In.(*ssa.Call)
+			if !ok {
+				continue
+			}
+			indexed, ranged := false, false
+			var maxK int64 = -1
+			var useSites []ssa.Instruction
+			for _, u := range *call.Referrers() {
+				switch x := u.(type) {
+				case *ssa.IndexAddr:
+					if k, isK := constInt(x.Index); isK {
+						indexed = true
+						if k > maxK {
+							maxK = k
+						}
+						useSites = append(useSites, x)
+					} else {
+						ranged = true
+					}
+				case *ssa.Index:
+					indexed = true
+				case *ssa.Slice:
+					ranged = true // the rest of the parts is walked (parts[1:])
+				}
+			}
+			if !indexed || ranged {
+				continue
+			}
+			n++
+			per++
+			// wherever a fixed part is taken, the number of parts is known not to exceed the parts that are used
+			bounded := func(a Atom) (bool, bool) { // matches, required value
+				x, isLen := lenOf(a.X)
+				if !isLen || strip(x) != ssa.Value(call) {
+					return false, false
+				}
+				switch a.Kind {
+				case "eqk":
+					return a.K == maxK+1, true
+				case "ltk":
+					return a.K <= maxK+2, true
+				}
+				return false, false
+			}
+			lenTested := len(useSites) > 0
+			for _, us := range useSites {
+				okSite := false
+				for _, a := range w.atomsOf(fn) {
+					if m, val := bounded(a); m && w.requires(fn, us, func(b Atom) bool { return b.Key == a.Key }, val) {
+						okSite = true
+					}
+				}
+				if !okSite {
+					lenTested = false
+				}
+			}
+			c.Fns[w.fname(fn)] = true
+			c.check(lenTested, rule, fmt.Sprintf("%s/split-parts#%d", w.fname(fn), per), w.ipos(call), "the number of parts is bounded where fixed parts are taken", w.fname(fn)+" takes fixed parts of strings.Split(..., "+w.termKey(call.Call.Args[1])+") without having excluded further parts: what follows a further separator is silently dropped (a tag such as dGFnLTE= or b2b7f3a1=1 is cut at its '=')")
+		}
+	}
+	c.ok(rule, "package/split-parts", "-", fmt.Sprintf("%d fixed-part uses of strings.Split in decoders inspected", n))
+}
+
+// rulePurePrinters: the printers of the decoded types (String / Write / ToString methods) do not write to the value
+// they print: a printer that remembers its text (or anything else) in the value makes what is encoded depend on
+// whether and when it was printed before - a debug log line then changes the relayed message.
+func rulePurePrinters(c *Ctx, rule string) {
+	w := c.w
+	n := 0
+	for _, typ := range decodedTypes {
+		for _, pf := range printerFns(w, typ) {
+			n++
+			if len(pf.Params) == 0 {
+				continue
+			}
+			var bad ssa.Instruction
+			ref := ""
+			eachInstr(pf, func(in ssa.Instruction) {
+				st, ok := in.(*ssa.Store)
+				if !ok {
+					return
+				}
+				if fa, ok := st.Addr.(*ssa.FieldAddr); ok && isParam(pf, fa.X, 0) {
+					bad, ref = in, fieldRef(fa)
+				}
+			})
+			c.Fns[w.fname(pf)] = true
+			c.check(bad == nil, rule, w.fname(pf)+"/pure", w.pos(pf.Pos()), "the printer does not modify the value it prints", w.fname(pf)+" writes "+ref+" of the value it prints: a cached encoding is not invalidated by every later change of the value (an entry popped, a parameter set), so the relayed text shows an older state - and only when something (a log line) printed the value before")
+		}
+	}
+	if n < 8 {
+		c.undecided(rule, "pure-printers/floor", "-", fmt.Sprintf("only %d printers found (expected >= 8)", n))
+	}
+}
